@@ -22,7 +22,10 @@ Kernel entry (TOML [[kernel]]):
               (optional list of child selectors, see _descend)
   mode        "Z" | "Num"
   args        ["name:type", ...]   every free Python name must be listed
-              (type Z | B | T ; T = the Num carrier).  `self._x` is written
+              (type Z | B | T | O ; T = the Num carrier, O = `option Z`
+              for values that may be None: only `is None`, `is not None`,
+              `== k`, `!= k` are translated; ZL = `list Z`, only as the
+              container of `x in c` / `x not in c`).  `self._x` is written
               `self._x` here and becomes the Coq variable `x`.
   subscripts  optional list of expected subscript / call bases, in order of
               appearance; each such sub-expression becomes an extra argument
@@ -51,8 +54,15 @@ def find_func(tree, qualname):
     node = tree
     for p in parts:
         found = None
+        # `name#k` selects the k-th definition of that name among the direct
+        # children (e.g. `Parameter.value#1` = the property setter)
+        p, _, nth = p.partition('#')
+        nth = int(nth) if nth else 0
         for ch in ast.iter_child_nodes(node):
             if isinstance(ch, (ast.FunctionDef, ast.ClassDef)) and ch.name == p:
+                if nth > 0:
+                    nth -= 1
+                    continue
                 found = ch
                 break
         if found is None:
@@ -100,6 +110,19 @@ def select_expr(func, select):
             hits.append((node.lineno, node.col_offset, node))
         elif kind == 'call' and isinstance(node, ast.Call) and ast.unparse(node.func) == name:
             hits.append((node.lineno, node.col_offset, node))
+        elif kind in ('subassign', 'subtarget') and isinstance(node, (ast.Assign, ast.AugAssign)):
+            # masked / indexed store `base[idx] = v` or `base[idx] op= v`, selected by
+            # the base only: subtarget = the index (mask) expression, subassign = the
+            # stored value (for op=: `base[idx] op v`)
+            tgts = node.targets if isinstance(node, ast.Assign) else [node.target]
+            if len(tgts) == 1 and isinstance(tgts[0], ast.Subscript) and ast.unparse(tgts[0].value) == name:
+                if kind == 'subtarget':
+                    hits.append((node.lineno, node.col_offset, tgts[0].slice))
+                elif isinstance(node, ast.Assign):
+                    hits.append((node.lineno, node.col_offset, node.value))
+                else:
+                    hits.append((node.lineno, node.col_offset, ast.BinOp(
+                        left=tgts[0], op=node.op, right=node.value)))
     hits.sort(key=lambda h: (h[0], h[1]))
     if k >= len(hits):
         raise TranslateError(f'selector {select!r}: only {len(hits)} match(es)')
@@ -122,6 +145,25 @@ def _descend(expr, step):
             if kw.arg == step[3:]:
                 return kw.value
         raise TranslateError(f'path {step}: keyword missing')
+    if step == 'elt':
+        # element expression of a list comprehension / generator expression
+        if not isinstance(expr, (ast.ListComp, ast.GeneratorExp, ast.SetComp)):
+            raise TranslateError(f'path {step}: not a comprehension: {ast.unparse(expr)}')
+        return expr.elt
+    if step.startswith('iter'):
+        # iterable of the N-th `for` clause of a comprehension
+        if not isinstance(expr, (ast.ListComp, ast.GeneratorExp, ast.SetComp)):
+            raise TranslateError(f'path {step}: not a comprehension: {ast.unparse(expr)}')
+        return expr.generators[int(step[4:])].iter
+    if step.startswith('genif'):   # genif<N>: N-th condition of the (single) generator
+        if not isinstance(expr, (ast.ListComp, ast.GeneratorExp, ast.SetComp)) or len(expr.generators) != 1:
+            raise TranslateError(f'path {step}: not a single-generator comprehension: {ast.unparse(expr)}')
+        return expr.generators[0].ifs[int(step[5:])]
+    if step.startswith('streq='):
+        # a string literal (e.g. side='right') read as the boolean `literal == text`
+        if not (isinstance(expr, ast.Constant) and isinstance(expr.value, str)):
+            raise TranslateError(f'path {step}: not a string literal: {ast.unparse(expr)}')
+        return ast.Constant(value=(expr.value == step[6:]))
     if step.startswith('elt'):
         return expr.elts[int(step[3:])]
     if step in ('left', 'right', 'test', 'body', 'orelse', 'value', 'operand', 'slice', 'lower', 'upper', 'func'):
@@ -160,6 +202,10 @@ class Emitter:
         self.expected_subs = kernel.get('subscripts', None)
         self.subs = []       # (base_text, index_ast or None)
         self.used = set()
+        # per-element reading: x[m] with m a boolean mask named here is x
+        self.erase_masks = set(kernel.get('erase_masks', []))
+        # sub-expressions treated as atoms: python text -> declared arg name
+        self.atoms = kernel.get('atoms', {})
 
     # ---- naming
     @staticmethod
@@ -189,14 +235,14 @@ class Emitter:
             self.fail(node, 'non-integer literal in Z mode')
         # Num mode
         if isinstance(v, int):
-            return f'(ofZ N ({v}))', 'T'
+            return f'(ofZ Nm_ ({v}))', 'T'
         if isinstance(v, float):
             fr = Fraction(ast.unparse(node)) if not isinstance(node, str) else Fraction(node)
             if fr.denominator == 1:
-                return f'(ofZ N ({fr.numerator}))', 'T'
+                return f'(ofZ Nm_ ({fr.numerator}))', 'T'
             if fr.numerator >= 2**53 or fr.denominator >= 2**53:
                 self.fail(node, 'literal not exactly representable as p/q of doubles')
-            return f'(ndiv N (ofZ N ({fr.numerator})) (ofZ N ({fr.denominator})))', 'T'
+            return f'(ndiv Nm_ (ofZ Nm_ ({fr.numerator})) (ofZ Nm_ ({fr.denominator})))', 'T'
         self.fail(node, 'unsupported literal')
 
     def truthy(self, s, t):
@@ -205,12 +251,26 @@ class Emitter:
         if t == 'Z':
             return f'(negb ({s} =? 0))'
         if t == 'T':
-            return f'(negb (neqb N {s} (nzero N)))'
+            return f'(negb (neqb Nm_ {s} (nzero Nm_)))'
         raise TranslateError('truthy of ' + t)
 
     # ---- expressions; returns (coq_text, type)
     def e(self, n):
         m = self.mode
+        if self.atoms and not isinstance(n, ast.Constant):
+            txt = ast.unparse(n)
+            if txt in self.atoms:
+                an = self.atoms[txt]
+                if an not in self.argtypes:
+                    self.fail(n, f'atom {txt!r} maps to undeclared arg {an!r}')
+                self.used.add(an)
+                return self.coqname(an), self.argtypes[an]
+        if isinstance(n, ast.Subscript):
+            sl = n.slice
+            sl_txt = ast.unparse(sl)
+            # broadcasting helpers and declared boolean masks are erased
+            if sl_txt in self.erase_masks or sl_txt in (':, np.newaxis', '(:, np.newaxis)', 'np.newaxis, :', '(np.newaxis, :)', ':', '...'):
+                return self.e(n.value)
         if isinstance(n, ast.Constant):
             return self.lit(n.value, n)
         if isinstance(n, (ast.Name, ast.Attribute)):
@@ -221,7 +281,7 @@ class Emitter:
             if txt in ('np.pi', 'numpy.pi', 'math.pi'):
                 if m != 'Num':
                     self.fail(n, 'pi in Z mode')
-                return '(npi N)', 'T'
+                return '(npi Nm_)', 'T'
             if txt in self.argtypes:
                 self.used.add(txt)
                 return self.coqname(txt), self.argtypes[txt]
@@ -231,7 +291,7 @@ class Emitter:
             if isinstance(n.op, ast.USub):
                 if isinstance(n.operand, ast.Constant) and m == 'Z':
                     return f'(-{s})', 'Z'
-                return (f'(- {s})', 'Z') if m == 'Z' and t == 'Z' else (f'(nopp N {s})', 'T')
+                return (f'(- {s})', 'Z') if m == 'Z' and t == 'Z' else (f'(nopp Nm_ {s})', 'T')
             if isinstance(n.op, ast.UAdd):
                 return s, t
             if isinstance(n.op, (ast.Not, ast.Invert)):
@@ -265,27 +325,60 @@ class Emitter:
                 self.fail(n, 'operator not supported in Z mode (true division must be wrapped in int())')
             else:
                 if ta == 'Z':
-                    a, ta = f'(ofZ N {a})', 'T'
+                    a, ta = f'(ofZ Nm_ {a})', 'T'
                 if tb == 'Z':
-                    b, tb = f'(ofZ N {b})', 'T'
+                    b, tb = f'(ofZ Nm_ {b})', 'T'
                 if ta != 'T' or tb != 'T':
                     self.fail(n, f'Num arithmetic on {ta},{tb}')
                 tab = {ast.Add: 'nadd', ast.Sub: 'nsub', ast.Mult: 'nmul', ast.Div: 'ndiv', ast.Mod: 'nfmod'}
                 if type(op) in tab:
-                    return f'({tab[type(op)]} N {a} {b})', 'T'
+                    return f'({tab[type(op)]} Nm_ {a} {b})', 'T'
                 if isinstance(op, ast.Pow):
                     if isinstance(n.right, ast.Constant) and n.right.value == 2:
-                        return f'(nmul N {a} {a})', 'T'
+                        return f'(nmul Nm_ {a} {a})', 'T'
                     if isinstance(n.right, ast.Constant) and n.right.value == 3:
-                        return f'(nmul N (nmul N {a} {a}) {a})', 'T'
-                    return f'(npow N {a} {b})', 'T'
+                        return f'(nmul Nm_ (nmul Nm_ {a} {a}) {a})', 'T'
+                    return f'(npow Nm_ {a} {b})', 'T'
                 self.fail(n, 'operator not supported in Num mode')
         if isinstance(n, ast.Compare):
             parts = []
             left = n.left
             for op, right in zip(n.ops, n.comparators):
+                # `x is None`, `x is not None`, `x == None`, `x != None` for an argument of type O (option Z)
+                lnone = isinstance(left, ast.Constant) and left.value is None
+                rnone = isinstance(right, ast.Constant) and right.value is None
+                if lnone != rnone:
+                    o, to = self.e(left if rnone else right)
+                    if to != 'O':
+                        self.fail(n, f'comparison with None on type {to} (declare the argument as :O)')
+                    isnone = f'(match {o} with None => true | Some _ => false end)'
+                    if isinstance(op, (ast.Is, ast.Eq)):
+                        parts.append(isnone)
+                    elif isinstance(op, (ast.IsNot, ast.NotEq)):
+                        parts.append(f'(negb {isnone})')
+                    else:
+                        self.fail(n, 'ordering comparison with None')
+                    left = right
+                    continue
                 a, ta = self.e(left)
                 b, tb = self.e(right)
+                if (ta == 'O') != (tb == 'O') and {ta, tb} == {'O', 'Z'} and isinstance(op, (ast.Eq, ast.NotEq)):
+                    # Python: None == 0 is False, None != 0 is True
+                    (o, z) = (a, b) if ta == 'O' else (b, a)
+                    eq = f'(match {o} with Some v_ => (v_ =? {z}) | None => false end)'
+                    parts.append(eq if isinstance(op, ast.Eq) else f'(negb {eq})')
+                    left = right
+                    continue
+                if ta == 'O' or tb == 'O':
+                    self.fail(n, f'comparison on {ta},{tb}')
+                if isinstance(op, (ast.In, ast.NotIn)):
+                    # `x in arr` / `x not in arr`: integer x, container declared as :ZL (list Z)
+                    if m != 'Z' or ta != 'Z' or tb != 'ZL':
+                        self.fail(n, f'membership test on {ta},{tb} (declare the container as :ZL)')
+                    mem = f'(List.existsb (Z.eqb {a}) {b})'
+                    parts.append(mem if isinstance(op, ast.In) else f'(negb {mem})')
+                    left = right
+                    continue
                 if m == 'Z':
                     if ta == 'B' and tb == 'B' and isinstance(op, (ast.Eq, ast.Is)):
                         parts.append(f'(Bool.eqb {a} {b})')
@@ -302,15 +395,15 @@ class Emitter:
                         self.fail(n, 'comparison operator')
                 else:
                     if ta == 'Z':
-                        a = f'(ofZ N {a})'
+                        a = f'(ofZ Nm_ {a})'
                     if tb == 'Z':
-                        b = f'(ofZ N {b})'
+                        b = f'(ofZ Nm_ {b})'
                     tab = {ast.Lt: ('nltb', 0), ast.LtE: ('nleb', 0), ast.Gt: ('nltb', 1), ast.GtE: ('nleb', 1), ast.Eq: ('neqb', 0)}
                     if type(op) in tab:
                         f, sw = tab[type(op)]
-                        parts.append(f'({f} N {b} {a})' if sw else f'({f} N {a} {b})')
+                        parts.append(f'({f} Nm_ {b} {a})' if sw else f'({f} Nm_ {a} {b})')
                     elif isinstance(op, ast.NotEq):
-                        parts.append(f'(negb (neqb N {a} {b}))')
+                        parts.append(f'(negb (neqb Nm_ {a} {b}))')
                     else:
                         self.fail(n, 'comparison operator')
                 left = right
@@ -344,12 +437,51 @@ class Emitter:
                     a, ta = self.e(a0.left)
                     b, tb = self.e(a0.right)
                     return f'(Z.quot {a} {b})', 'Z'
+                if (m == 'Z' and isinstance(a0, ast.Call) and ast.unparse(a0.func) in ('np.ceil', 'numpy.ceil', 'math.ceil')
+                        and len(a0.args) == 1 and not a0.keywords
+                        and isinstance(a0.args[0], ast.BinOp) and isinstance(a0.args[0].op, ast.Div)):
+                    # int(np.ceil(a / b)): ceiling division = -floor(-a / b)
+                    a, ta = self.e(a0.args[0].left)
+                    b, tb = self.e(a0.args[0].right)
+                    if ta != 'Z' or tb != 'Z':
+                        self.fail(n, f'ceiling division on {ta},{tb}')
+                    return f'(- ((- {a}) / {b}))', 'Z'
                 s, t = self.e(a0)
                 if m == 'Z' and t == 'Z':
                     return s, 'Z'
                 self.fail(n, 'int() of a non-division in this mode')
             if fn in ('float', 'np.float64', 'np.asarray', 'np.array', 'np.atleast_1d') and len(n.args) >= 1:
                 return self.e(n.args[0])
+            if fn in ('np.take', 'numpy.take') and len(n.args) == 2 and not n.keywords:
+                # np.take(a, i) is the lookup a[i]
+                return self.abstract(n, ast.unparse(n.args[0]), n.args[1])
+            if fn in ('np.repeat', 'numpy.repeat') and len(n.args) == 2 and not n.keywords:
+                # per element, np.repeat(c, n) of a constant scalar c is c
+                used0 = set(self.used)
+                s, t = self.e(n.args[0])
+                if t not in ('T', 'Z') or self.used != used0:
+                    self.fail(n, 'np.repeat of a non-constant')
+                return s, t
+            if (mod in ('np', 'numpy') and base in NP_UNARY and NP_UNARY[base] and m == 'Num'
+                    and len(n.args) == 1 and not n.keywords
+                    and isinstance(n.args[0], (ast.List, ast.Tuple)) and len(n.args[0].elts) >= 2):
+                # np.f([a, b, ...]): the stacked arrays, f applied to each
+                elts = [self.e(x) for x in n.args[0].elts]
+                if any(t != 'T' for _, t in elts):
+                    self.fail(n, 'unary function over a list of non-T')
+                return [(f'(n{NP_UNARY[base]} Nm_ {s})', 'T') for s, _ in elts], 'L'
+            if (mod in ('np', 'numpy') and base in ('amin', 'amax', 'min', 'max') and len(n.args) == 1
+                    and [kw.arg for kw in n.keywords] == ['axis']
+                    and isinstance(n.keywords[0].value, ast.Constant) and n.keywords[0].value.value == 0):
+                # np.amin([a, b, ...], axis=0): per element the minimum of the stacked arrays
+                v, t = self.e(n.args[0])
+                if t != 'L' or m != 'Num' or any(tt != 'T' for _, tt in v):
+                    self.fail(n, 'axis-0 reduction of something that is not a literal list of arrays')
+                f = 'nmin' if base in ('amin', 'min') else 'nmax'
+                s = v[0][0]
+                for (x, _) in v[1:]:
+                    s = f'({f} Nm_ {s} {x})'
+                return s, 'T'
             if mod in ('np', 'numpy', 'math', 'scipy.special', 'special') or fn in ('abs', 'min', 'max', 'erf'):
                 if base == 'where' and len(n.args) == 3:
                     c = self.truthy(*self.e(n.args[0]))
@@ -357,9 +489,9 @@ class Emitter:
                     b, tb = self.e(n.args[2])
                     if m == 'Num':
                         if ta == 'Z':
-                            a, ta = f'(ofZ N {a})', 'T'
+                            a, ta = f'(ofZ Nm_ {a})', 'T'
                         if tb == 'Z':
-                            b, tb = f'(ofZ N {b})', 'T'
+                            b, tb = f'(ofZ Nm_ {b})', 'T'
                     if ta != tb:
                         self.fail(n, 'np.where branches of different type')
                     return f'(if {c} then {a} else {b})', ta
@@ -372,21 +504,39 @@ class Emitter:
                     return f'(negb {a})', 'B'
                 if base == 'square' and len(n.args) == 1:
                     a, ta = self.e(n.args[0])
-                    return (f'({a} * {a})', 'Z') if m == 'Z' else (f'(nmul N {a} {a})', 'T')
+                    return (f'({a} * {a})', 'Z') if m == 'Z' else (f'(nmul Nm_ {a} {a})', 'T')
+                if base == 'clip' and len(n.args) == 3 and not n.keywords and m == 'Num':
+                    # np.clip(x, lo, hi) = minimum(maximum(x, lo), hi)
+                    a, ta = self.e(n.args[0])
+                    lo, tl = self.e(n.args[1])
+                    hi, th = self.e(n.args[2])
+                    if (ta, tl, th) != ('T', 'T', 'T'):
+                        self.fail(n, 'np.clip on non-real operands')
+                    return f'(nmin Nm_ (nmax Nm_ {a} {lo}) {hi})', 'T'
                 if base == 'erf' and len(n.args) == 1 and m == 'Num':
                     a, _ = self.e(n.args[0])
-                    return f'(nerf N {a})', 'T'
+                    return f'(nerf Nm_ {a})', 'T'
                 if base in ('isnan',) and m == 'Num':
                     a, _ = self.e(n.args[0])
-                    return f'(nisnan N {a})', 'B'
+                    return f'(nisnan Nm_ {a})', 'B'
+                kwnames = {kw.arg for kw in n.keywords}
+                if base in NP_BINARY and len(n.args) == 2 and kwnames and kwnames <= {'where', 'out'}:
+                    # ufunc(x, y, where=mask, out=arr): per selected element it is the plain function
+                    a, ta = self.e(n.args[0])
+                    b, tb = self.e(n.args[1])
+                    if m == 'Num':
+                        return f'(n{NP_BINARY[base]} Nm_ {a} {b})', 'T'
+                if base in NP_UNARY and len(n.args) == 1 and kwnames and kwnames <= {'where', 'out'} and m == 'Num':
+                    a, ta = self.e(n.args[0])
+                    return f'(n{NP_UNARY[base]} Nm_ {a})', 'T'
                 if base in NP_UNARY and len(n.args) >= 1 and not n.keywords or (base in ('around', 'round') and len(n.args) == 1):
                     if base in ('around', 'round') and (len(n.args) != 1 or n.keywords):
                         # np.around(x, d) = rint(x*10^d)/10^d
                         if len(n.args) == 2 and isinstance(n.args[1], ast.Constant) and m == 'Num':
                             a, _ = self.e(n.args[0])
                             d = n.args[1].value
-                            p = f'(ofZ N {10**d})'
-                            return f'(ndiv N (nrint N (nmul N {a} {p})) {p})', 'T'
+                            p = f'(ofZ Nm_ {10**d})'
+                            return f'(ndiv Nm_ (nrint Nm_ (nmul Nm_ {a} {p})) {p})', 'T'
                         self.fail(n, 'np.around form')
                     a, ta = self.e(n.args[0])
                     if m == 'Z':
@@ -394,8 +544,8 @@ class Emitter:
                             return f'(Z.abs {a})', 'Z'
                         self.fail(n, 'unary function in Z mode')
                     if ta == 'Z':
-                        a = f'(ofZ N {a})'
-                    return f'(n{NP_UNARY[base]} N {a})', 'T'
+                        a = f'(ofZ Nm_ {a})'
+                    return f'(n{NP_UNARY[base]} Nm_ {a})', 'T'
                 if base in NP_BINARY and len(n.args) == 2 and not n.keywords:
                     a, ta = self.e(n.args[0])
                     b, tb = self.e(n.args[1])
@@ -405,20 +555,23 @@ class Emitter:
                             return f'({tabz[base]} {a} {b})', 'Z'
                         self.fail(n, 'binary function in Z mode')
                     if ta == 'Z':
-                        a = f'(ofZ N {a})'
+                        a = f'(ofZ Nm_ {a})'
                     if tb == 'Z':
-                        b = f'(ofZ N {b})'
-                    return f'(n{NP_BINARY[base]} N {a} {b})', 'T'
+                        b = f'(ofZ Nm_ {b})'
+                    return f'(n{NP_BINARY[base]} Nm_ {a} {b})', 'T'
                 if fn in ('min', 'max') and len(n.args) == 2:
                     a, ta = self.e(n.args[0])
                     b, tb = self.e(n.args[1])
                     if m == 'Z':
                         return f"({'Z.min' if fn == 'min' else 'Z.max'} {a} {b})", 'Z'
-                    return f"(n{fn} N {a} {b})", 'T'
+                    return f"(n{fn} Nm_ {a} {b})", 'T'
             # any other call: abstract it if the kernel expects it
             return self.abstract(n, ast.unparse(n), None)
         if isinstance(n, ast.Tuple) and len(n.elts) == 1:
             return self.e(n.elts[0])
+        if isinstance(n, ast.List) and len(n.elts) >= 2:
+            # a literal list of arrays (only consumed by an axis-0 reduction)
+            return [self.e(x) for x in n.elts], 'L'
         self.fail(n, f'unsupported syntax {type(n).__name__}')
 
     def abstract(self, node, base_text, index_ast):
@@ -443,7 +596,7 @@ class Emitter:
 def binder(args, mode):
     out = []
     for n, t in args:
-        ct = {'Z': 'Z', 'B': 'bool', 'T': 'T'}[t]
+        ct = {'Z': 'Z', 'B': 'bool', 'T': 'T', 'O': 'option Z', 'ZL': 'list Z'}[t]
         out.append(f'({Emitter.coqname(n)} : {ct})')
     return ' '.join(out)
 
@@ -478,7 +631,7 @@ def translate_kernel(k, trees):
         unused = [n for n in unused if n not in idx_used]
         if unused:
             raise TranslateError(f"kernel {k['name']}: declared args not used by the source expression: {unused}")
-    ct = {'Z': 'Z', 'B': 'bool', 'T': 'T'}[typ]
+    ct = {'Z': 'Z', 'B': 'bool', 'T': 'T', 'ZL': 'list Z'}[typ]
     subargs = []
     for i, (b, ia) in enumerate(em.subs):
         exp = em.expected_subs[i]
@@ -488,9 +641,9 @@ def translate_kernel(k, trees):
     lines = []
     src = ast.unparse(expr)
     lines.append(f"(* {k['file']}:{k['func']} [{k['select']}] line {lineno}\n   {src.replace('(*', '( *').replace('*)', '* )')} *)")
-    pre = '{T : Type} (N : Num T) ' if em.mode == 'Num' else ''
+    pre = '{T : Type} (Nm_ : Num T) ' if em.mode == 'Num' else ''
     allb = binder(em.args, em.mode)
-    subb = ' '.join(f"({n} : {({'Z': 'Z', 'B': 'bool', 'T': 'T'}[t])})" for n, t in subargs)
+    subb = ' '.join(f"({n} : {({'Z': 'Z', 'B': 'bool', 'T': 'T', 'ZL': 'list Z'}[t])})" for n, t in subargs)
     lines.append(f"Definition {k['name']} {pre}{allb} {subb} : {ct} :=\n  {body}.")
     for i, (b, ia) in enumerate(em.subs):
         if ia is None:
@@ -544,6 +697,8 @@ def main(argv):
                'From Coq Require Import ZArith Bool.']
         if 'Num' in m['modes']:
             hdr.append('From Sky Require Import Num.')
+        if any('List.existsb' in d for d in m['defs']):
+            hdr.append('From Coq Require List.')
         hdr.append('Open Scope Z_scope.')
         text = '\n'.join(hdr) + '\n\n' + '\n\n'.join(m['defs']) + '\n'
         p = os.path.join(outdir, f'G_{out}.v')
